@@ -11,6 +11,8 @@ require (
 	github.com/google/cel-go v0.22.0
 	github.com/rs/zerolog v1.33.0
 	github.com/youmark/pkcs8 v0.0.0-20240726163527-a2c0da244d78
+	go.opentelemetry.io/otel v1.32.0
+	go.opentelemetry.io/otel/sdk/metric v1.32.0
 	gocloud.dev v0.40.0
 	google.golang.org/grpc v1.68.0
 	k8s.io/apimachinery v0.31.2
@@ -136,7 +138,6 @@ require (
 	go.opencensus.io v0.24.0 // indirect
 	go.opentelemetry.io/contrib/instrumentation/google.golang.org/grpc/otelgrpc v0.57.0 // indirect
 	go.opentelemetry.io/contrib/instrumentation/net/http/otelhttp v0.57.0 // indirect
-	go.opentelemetry.io/otel v1.32.0 // indirect
 	go.opentelemetry.io/otel/metric v1.32.0 // indirect
 	go.opentelemetry.io/otel/sdk v1.32.0 // indirect
 	go.opentelemetry.io/otel/trace v1.32.0 // indirect
